@@ -110,6 +110,42 @@ def check_loops(p, report, funcs, facts, rule21="R2.1", rule22="R2.2", only=None
                        detail="exclusion by a mechanism other than NaN masking (R1.4 decides it)", nontrivial=False)
 
 
+def check_zero_mask_preserved(p, report, funcs, facts):
+    for rec in c01.loop_records(funcs, facts):
+        f, ff, L, S, rnames, acc, edges, fw = rec
+        if c01.callname(S) != "choice":
+            continue
+        tree = FuncTree(f.node)
+        s_stmt = tree.stmt_of(S)
+        ops = c01.operand_names(S, ff.locs)
+        picks = rnames | acc
+        for n in ast.walk(L):
+            if isinstance(n, ast.Assign) and isinstance(n.value, ast.Constant) and n.value.value == 0:
+                t = n.targets[0]
+                if not (isinstance(t, ast.Subscript) and (index_names(t) & picks)):
+                    continue
+                T = base_name(t)
+                if not dominates(tree, n, s_stmt):
+                    continue
+                # re-derivations of T between the zero store and the draw
+                bad = None
+                for m in ast.walk(L):
+                    if isinstance(m, ast.Assign) and any(isinstance(x, ast.Name) and x.id == T for x in m.targets) \
+                            and dominates(tree, n, m) and m is not n and (dominates(tree, m, s_stmt)) \
+                            and T in names_in(m.value):
+                        v = m.value
+                        ok = isinstance(v, ast.BinOp) and isinstance(v.op, (ast.Div, ast.Mult)) and \
+                            isinstance(v.left, ast.Name) and v.left.id == T
+                        if not ok:
+                            bad = m
+                if T not in ops and not (closure(ops, edges) & {T}):
+                    continue
+                report.add("R2.3", f.qual, f"zero mask `{norm_stmt(n, 50)}` survives until the draw", f"{f.file}:{n.lineno}",
+                           bad is None, detail="only scaled afterwards" if bad is None else
+                           f"`{norm_stmt(bad, 60)}` re-derives the masked array by an operation that does not preserve "
+                           "zero (0 ** 0 == 1): an earlier pick keeps positive sampling mass")
+
+
 def run(p, report, tier):
     report.rule("R2.1", "within one iteration of a selection loop the NaN mask of the current pick is applied only "
                 "after the returned row was snapshotted (or to an array that is not returned), and masks of earlier "
@@ -123,6 +159,15 @@ def run(p, report, tier):
     check_loops(p, report, funcs, facts)
     for f in funcs:
         c01.check_nan_discipline(p, report, f, facts[id(f.node)])
+    # R2.3: exclusion on every path + index translation + zero-mass masks survive
+    report.rule("R2.3", "the exclusion of earlier picks reaches the selection on every path (shared R1.4m), positions "
+                "selected over a shrunk pool are translated (shared R1.6), and a zero-probability mask is not followed "
+                "by a transformation that does not preserve zero (power, exp, additive shift) before the draw", floor=16)
+    sub = c01.Report_proxy(report, {"R1.4m": "R2.3", "R1.6": "R2.3"})
+    c01.check_exclusion_mechanisms(p, sub, funcs, facts)
+    from . import c08
+    c08.check_shrinking_pool(p, sub, funcs, "R1.6")
+    check_zero_mask_preserved(p, report, funcs, facts)
     report.assumptions += [
         "statement order inside a loop body is judged by structural dominance (no goto)",
         "the numerical arg-max relation itself is the contract of rand_argmax (C18)",
